@@ -25,7 +25,8 @@ def canon(kind, v):
     return str(v)
 
 
-LEAVES = [("int", 3), ("int", -7), ("str", "3"), ("str", "1.5"), ("str", "True"), ("str", "hello"), ("str", "with \"quote\" # not a comment"), ("float", 1.5), ("float", 0.25), ("bool", True), ("bool", False),
+LEAVES = [("int", 3), ("int", -7), ("str", "3"), ("str", "1.5"), ("str", "True"), ("str", "hello"), ("str", "with \"quote\" # not a comment"),
+          ("str", "sep\u2028[x]"), ("str", "nel\u0085[y] z"), ("str", "first\n# second line looks like a comment\n[third]"), ("float", 1.5), ("float", 0.25), ("bool", True), ("bool", False),
           ("array", [1, 2, 3]), ("array", ["a", "b"]), ("array", [])]
 KEYS = ["alpha", "beta", "gamma", "port"]
 
@@ -34,10 +35,12 @@ def table(entries):
     return {"k": "table", "v": [{"key": k, "val": v} for k, v in entries]}
 
 
-def toml_value(lf):
+def toml_value(lf, multiline=False, raw=False):
     k, s = lf["k"], lf["s"]
     if k == "str":
-        return json.dumps(s)            # TOML basic strings accept JSON string escapes for ASCII
+        if multiline and "\n" in s and '"""' not in s and "\\" not in s:
+            return '"""\n' + s.replace('"', '\\"') + '"""'       # a multi-line basic string (user files only)
+        return json.dumps(s, ensure_ascii=not raw)            # one line; raw: non-ASCII characters written as themselves
     if k == "array":
         return s
     return s
@@ -47,7 +50,7 @@ def inline(doc):
     return "{ " + ", ".join("%s = %s" % (e["key"], inline(e["val"]) if e["val"]["k"] == "table" else toml_value(e["val"])) for e in doc["v"]) + " }"
 
 
-def to_toml(doc, rnd=None, comments=False, prefix=(), styles=False):
+def to_toml(doc, rnd=None, comments=False, prefix=(), styles=False, multiline=False, raw=False):
     """tagged tree -> TOML text (scalars first, then sub-tables with [a.b] headers); every value on one line.
     styles: some tables are written inline ({ a = 1 }) and sub-tables of different parents are interleaved"""
     lines = []
@@ -61,12 +64,12 @@ def to_toml(doc, rnd=None, comments=False, prefix=(), styles=False):
     for e in scal:
         if comments and rnd and rnd.random() < 0.3:
             lines.append("# a comment about %s = 1" % e["key"])
-        lines.append("%s = %s%s" % (e["key"], toml_value(e["val"]), "  # trailing" if comments and rnd and rnd.random() < 0.2 else ""))
+        lines.append("%s = %s%s" % (e["key"], toml_value(e["val"], multiline, raw), "  # trailing" if comments and rnd and rnd.random() < 0.2 else ""))
     for e in tabs:
         path = prefix + (e["key"],)
         lines.append("")
         lines.append("[%s]" % ".".join(path))
-        sub = to_toml(e["val"], rnd, comments, path, styles)
+        sub = to_toml(e["val"], rnd, comments, path, styles, multiline, raw)
         if sub:
             lines.append(sub)
     return "\n".join(lines)
@@ -146,14 +149,14 @@ def run_cases(args):
             cdir = dirs.get_config_dir(app)
             assert cdir.startswith(root), cdir
             path = os.path.join(cdir, app + ".toml")
-            dtxt = to_toml(d, rnd, False, (), styles and rnd.random() < 0.5)
+            dtxt = to_toml(d, rnd, False, (), styles and rnd.random() < 0.5, False, rnd.random() < 0.6)      # defaults: every value on one line
             if given:
                 dtxt = given["default"]
             rec = {"d": d, "has_file": has_file, "u": u if has_file else table([]), "out": "ok", "file_written": False, "later": table([]),
                    "_texts": {"default": dtxt, "user": ""}}
             before = None
             if has_file:
-                utxt = to_toml(u, rnd, comments, (), styles) + "\n"
+                utxt = to_toml(u, rnd, comments, (), styles, rnd.random() < 0.7, rnd.random() < 0.6) + "\n"
                 if not u["v"]:
                     utxt = ["", "\n", "# only a comment\n", "  \n\n"][(n + seed) % 4]      # a user file that sets nothing: zero bytes, blank, comment-only
                 if given:
